@@ -29,8 +29,11 @@ Insts == {1, 2}
 \* "ab" / "ba": two traced keyword arguments (scale, shift) written in this / the opposite order at the call site
 AllKws == {"none", "s1", "s2", "traced", "param", "ab", "ba"}
 \* instance tables: object 1 is (w1, cfg1); object 2 is an equal twin, or differs in weights or config
-Tables == {"twin", "other_weights", "other_config"}
-W(tab, i) == IF i = 2 /\ tab = "other_weights" THEN 2 ELSE 1
+\* "homonym": object 2 is an instance of ANOTHER decorated class that has the same display name (same class name
+\* in another module, or the same type= override) and a body of its own
+Tables == {"twin", "other_weights", "other_config", "homonym"}
+W(tab, i) == IF i = 2 /\ tab \in {"other_weights", "homonym"} THEN 2 ELSE 1
+Cls(tab, i) == IF i = 2 /\ tab = "homonym" THEN 2 ELSE 1
 Cfg(tab, i) == IF i = 2 /\ tab = "other_config" THEN 2 ELSE 1
 
 Site == [inst : Insts, kw : Kws, shp : {1, 2}, dt : {1, 2}, scope : Scopes]
@@ -38,8 +41,9 @@ Site == [inst : Insts, kw : Kws, shp : {1, 2}, dt : {1, 2}, scope : Scopes]
 VARIABLES tab, sites, k, freg, calls, ids,
           ctr,        \* name counters: ctr[0] is the dict object every context of a conversion shares by
                       \* reference; ctr[i] is the private copy of call site i's outer body (used only by Dev_CopyCounters)
-          copied      \* TRUE once a deviation detached the counters of the function bodies
-vars == <<tab, sites, k, freg, calls, ids, ctr, copied>>
+          copied,     \* TRUE once a deviation detached the counters of the function bodies
+          perTarget   \* TRUE once a deviation keyed the name counters by target class instead of display name
+vars == <<tab, sites, k, freg, calls, ids, ctr, copied, perTarget>>
 
 \* what the function computes does not depend on the order keywords are written in
 KwSem(kw) == CASE kw \in {"s1", "s2", "none"} -> kw [] kw = "traced" -> "dynamic" [] kw = "param" -> "call_input"
@@ -59,11 +63,13 @@ Init == /\ tab \in Tables
         /\ sites \in UNION {[1..n -> Site] : n \in 1..MaxSites}
         /\ k = 0 /\ freg = <<>> /\ calls = <<>>
         /\ ids = [i \in Insts |-> i]
-        /\ ctr = [c \in 0..MaxSites |-> 0] /\ copied = FALSE
+        /\ ctr = [c \in 0..MaxSites |-> 0] /\ copied = FALSE /\ perTarget = FALSE
 
 \* _allocate_friendly_name: (domain, op_type) = (namespace.base.<n>, base); n from the counters the lowering
 \* context of THIS call site holds -- the shared dict, unless a deviation gave the body a private copy
-CtrOf(i) == IF copied /\ sites[i].scope = "body" THEN i ELSE 0
+\* (names are allocated per DISPLAY name: homonymous classes draw from one counter; Dev_CounterPerTarget keys it by class)
+CtrOf(i) == IF copied /\ sites[i].scope = "body" THEN i
+            ELSE IF perTarget /\ Cls(tab, sites[i].inst) = 2 THEN MaxSites ELSE 0
 NextName(i) == ctr[CtrOf(i)] + 1
 
 InReg(key) == \E j \in 1..Len(freg) : freg[j].key = key
@@ -75,7 +81,7 @@ LowerCallHit ==
        /\ InReg(Key(s))
        /\ calls' = Append(calls, [site |-> k + 1, def |-> Lookup(Key(s)), nin |-> Arity(s), ord |-> RuntimeOrd(s.kw)])
     /\ k' = k + 1
-    /\ UNCHANGED <<tab, sites, freg, ids, ctr, copied>>
+    /\ UNCHANGED <<tab, sites, freg, ids, ctr, copied, perTarget>>
 
 LowerCallMiss ==     \* FunctionScope.begin .. trace body .. lower .. end .. registry.put
     /\ k < Len(sites)
@@ -85,7 +91,7 @@ LowerCallMiss ==     \* FunctionScope.begin .. trace body .. lower .. end .. reg
        /\ calls' = Append(calls, [site |-> k + 1, def |-> Len(freg) + 1, nin |-> Arity(s), ord |-> RuntimeOrd(s.kw)])
        /\ ctr' = [ctr EXCEPT ![CtrOf(k + 1)] = @ + 1]
     /\ k' = k + 1
-    /\ UNCHANGED <<tab, sites, ids, copied>>
+    /\ UNCHANGED <<tab, sites, ids, copied, perTarget>>
 
 Next == LowerCallHit \/ LowerCallMiss
 Spec == Init /\ [][Next]_vars
@@ -108,14 +114,14 @@ DistinctWhenDifferent ==
 Dev_IdReuse ==      \* object 1 was a temporary; its identity is handed to object 2
     /\ ~Unique /\ k >= 1 /\ ids[2] # ids[1]
     /\ ids' = [ids EXCEPT ![2] = ids[1]]
-    /\ UNCHANGED <<tab, sites, k, freg, calls, ctr, copied>>
+    /\ UNCHANGED <<tab, sites, k, freg, calls, ctr, copied, perTarget>>
 Dev_MutateBetweenCalls ==   \* the user's object changes its weights between two calls
     /\ ~Unique /\ k >= 1 /\ tab = "twin"
     /\ tab' = "other_weights"
-    /\ UNCHANGED <<sites, k, freg, calls, ids, ctr, copied>>
+    /\ UNCHANGED <<sites, k, freg, calls, ids, ctr, copied, perTarget>>
 Dev_CopyCounters ==         \* a function body gets a COPY of the name counters instead of the shared dict
     /\ ~copied /\ k = 0
-    /\ copied' = TRUE
+    /\ copied' = TRUE /\ UNCHANGED perTarget
     /\ UNCHANGED <<tab, sites, k, freg, calls, ids, ctr>>
 \* the key canonicalises keyword order while the call node keeps appending in call-site order
 DevKey(s) == IF Unique THEN <<"u", W(tab, s.inst), Cfg(tab, s.inst), KwSem(s.kw), s.shp, s.dt>>
@@ -127,8 +133,14 @@ Dev_LowerCallHitSortedKey ==
        /\ LET j == CHOOSE j \in 1..Len(freg) : freg[j].key[1] = Key(s)[1] /\ freg[j].sem = Sem(s) /\ freg[j].key # Key(s) IN
           calls' = Append(calls, [site |-> k + 1, def |-> j, nin |-> Arity(s), ord |-> RuntimeOrd(s.kw)])
     /\ k' = k + 1
-    /\ UNCHANGED <<tab, sites, freg, ids, ctr, copied>>
+    /\ UNCHANGED <<tab, sites, freg, ids, ctr, copied, perTarget>>
 DevSpec == Init /\ [][Next \/ Dev_IdReuse \/ Dev_MutateBetweenCalls]_vars
+Dev_CounterPerTarget ==     \* the per-context name counter is keyed by the qualified target instead of the display name
+    /\ ~perTarget /\ k = 0
+    /\ perTarget' = TRUE
+    /\ UNCHANGED <<tab, sites, k, freg, calls, ids, ctr, copied>>
+DevSpecPerTarget == Init /\ [][Next \/ Dev_CounterPerTarget]_vars
+
 DevSpecNames == Init /\ [][Next \/ Dev_CopyCounters]_vars
 DevSpecKwOrder == Init /\ [][Next \/ Dev_LowerCallHitSortedKey]_vars
 =============================================================================
